@@ -625,6 +625,14 @@ class OpsMixin:
         if isinstance(v, TNode):
             if name in v.fields:
                 return v.fields[name]
+            if v.kind in ("$Param", "$LoweredItem") and name in ("elts", "values", "keys", "body", "args", "value", "left", "right", "operand", "test", "orelse", "generators", "elt", "func", "keywords", "target"):
+                # looking INSIDE an expression that some statement was lowered to: the lists of such
+                # nodes may still be completed by the enclosing loop/function (flag sets are appended
+                # later), so what is seen now is not what is emitted
+                self.effects.append({"kind": "inspect-lowered", "attr": name, "target": v.kind, "site": self.cur_site, "rep": list(self.rep_stack), "phase": self.phase})
+                out = PList([])
+                out.sym_elem_of = f"{v.kind}.{name}"
+                return out
             if name == "_fields":
                 raise AnalysisError("reflection on a template node")
             info = asdl.field_info(v.kind, name)
